@@ -4,6 +4,7 @@
 package synth
 
 import (
+	"path"
 	"fmt"
 	"math/rand"
 	"os"
@@ -157,7 +158,8 @@ func (c *Case) PkgPath(p *Pkg) string {
 	if p.Dir != "" {
 		out += "/" + p.Dir
 	}
-	return out
+	// a Dir starting with ../ places the package next to the case's own directory (a sibling)
+	return path.Clean(out)
 }
 
 func renderDecl(b *strings.Builder, d *Decl, cur string) {
